@@ -1,8 +1,8 @@
 ------------------------------ MODULE KRecycleMC ------------------------------
 (* Exhaustive exploration of the delete / revive / purge transcription (L2) against the lifecycle
    property (L1) with scaled constants (RMax, CMax in model time units): entry 1 user (member of
-   group 2, target of dependent 3), 2 group, 3 dependent.  Every edit happens dt in 0..2 after the
-   previous one.  L1 is evaluated on every transition (ok' records it); CEX / BEH as in KRefintMC,
+   group 2, target of dependent 3), 2 group, 3 dependent.  Every edit happens dt in 1..2 after the
+   previous one (dt >= 1: one transaction per simulated second, so whole-second arithmetic is exact).  L1 is evaluated on every transition (ok' records it); CEX / BEH as in KRefintMC,
    each edit is <<kind, arg, dt>>. *)
 EXTENDS KRecycle, Sequences
 CONSTANTS MaxLen, Sample, TMax
@@ -14,16 +14,16 @@ Init == /\ s = [ids |-> I3, grp |-> {2}, lv |-> [x \in I3 |-> "live"], now |-> 0
                 refers |-> [x \in I3 |-> IF x = 3 THEN {1} ELSE {}], casc |-> [x \in I3 |-> {}],
                 member |-> [x \in I3 |-> IF x = 2 THEN {1} ELSE {}], rdmo |-> [x \in I3 |-> {}],
                 name |-> [x \in I3 |-> Nm(x)]]
-        /\ hs = [del |-> [x \in I3 |-> 0], ts |-> [x \in I3 |-> 0], want |-> [x \in I3 |-> {}], dep |-> [x \in I3 |-> {}]]
+        /\ hs = [del |-> [x \in I3 |-> 0], ts |-> [x \in I3 |-> 0], want |-> [x \in I3 |-> {}], dep |-> [x \in I3 |-> {}], rf |-> [x \in I3 |-> {}]]
         /\ h = <<>> /\ ok = TRUE
 \* L1 on one transition (operation kind k on x with result res)
 L1(t, k, x, res) ==
   /\ LifecycleOk(s, t, hs)
   /\ (k = 2 /\ s.lv[x] = "recycled" /\ res = "ok") => ReviveOk(s, t, hs, x)
-  /\ (k = 2 /\ s.lv[x] = "recycled" /\ Unobstructed(s, x)) => res = "ok"
+  /\ (k = 2 /\ s.lv[x] = "recycled" /\ Unobstructed(s, hs, x)) => res = "ok"
 Step(k, a, dt, r) == /\ s' = r.st /\ h' = h \o <<k, a, dt>> /\ hs' = Hist(hs, s, r.st) /\ ok' = L1(r.st, k, a, r.res)
 Next == /\ ok /\ Len(h) < 3 * MaxLen
-        /\ \E dt \in 0..2 : LET now == s.now + dt IN now <= TMax /\
+        /\ \E dt \in 1..2 : LET now == s.now + dt IN now <= TMax /\
            \/ \E x \in I3 : s.lv[x] = "live" /\ Step(1, x, dt, Delete(s, {x}, now))
            \/ \E x \in I3 : s.lv[x] \in {"recycled", "tombstone"} /\ Step(2, x, dt, Revive(s, x, now))
            \/ Step(3, 0, dt, R(PurgeRecycled(s, now), "ok"))
